@@ -451,8 +451,9 @@ def _gen_model_op(r, root, path, m, sp, malformed):
                 named = [{'t': 'tok-at', 'i': i} for i in picks]
                 if malformed and r.random() < 0.5:
                     named.insert(r.randrange(len(named) + 1), {'t': 'bc', 'v': 'stranger', 'indent': ''})
-                if named:
-                    args = [{'t': 'list', 'items': named}]
+                if r.random() < 0.15:
+                    named = []           # an EMPTY selection is a selection: nothing is claimed / released (not "everything")
+                args = [{'t': 'list', 'items': named, 'as': r.choice(['list', 'tuple'])}]
             return {'k': 'call', 'kind': 'claim-inter' if meth.startswith('claim') else 'unclaim-inter', 'path': path, 'attr': name,
                     'm': meth, 'args': args, 'parent': []}
         if REP_ASSIGN and r.random() < 0.08 and len(getattr(m, name)):
@@ -731,7 +732,10 @@ def _gen_view_op(r, root, path, m, name, sp, malformed):
         return {'k': 'call', 'kind': 'view-clear', 'm': 'clear', 'args': [], **base_op}
     if name in _VIEW_ELEM:
         v = mk()
-        return {'k': 'call', 'kind': 'view-' + r.choice(['remove', 'discard']), 'm': r.choice(['remove', 'discard']), 'args': [v], **base_op}
+        if n and r.random() < 0.5:
+            v = {'t': 'lit', 'v': r.choice(list(w))}      # a value the view holds (its sibling view may hold the same one)
+        meth = r.choice(['remove', 'discard'])
+        return {'k': 'call', 'kind': 'view-' + meth, 'm': meth, 'args': [v], **base_op}
     return None
 
 
